@@ -182,7 +182,17 @@ func makePool(t *core.Tape, n int, rich bool) []poolItem {
 	for i := 0; i < n; i++ {
 		var it ap.Item
 		shape := ""
-		switch t.Draw(7) {
+		switch t.Draw(9) {
+		case 7, 8:
+			// any other object type of the vocabulary (question, place, profile, relationship,
+			// tombstone, intransitive activity, collections as members), pointer or value form
+			k := &gen.Kinds[t.Draw(len(gen.Kinds))]
+			p := g.Struct(k, 1, false)
+			if t.Bool(1, 3) {
+				it, shape = p.Elem().Interface().(ap.Item), k.Name
+			} else {
+				it, shape = p.Interface().(ap.Item), "*"+k.Name
+			}
 		case 0:
 			it, shape = g.IRI(), "IRI"
 		case 1:
@@ -206,7 +216,10 @@ func makePool(t *core.Tape, n int, rich bool) []poolItem {
 				base = base[:j]
 			}
 			variant := ""
-			switch t.Draw(4) {
+			switch t.Draw(5) {
+			case 4:
+				// repeated query key: the multiset of values matters, not just the first one
+				variant = base + "?tag=go&tag=" + fmt.Sprint(10+i)
 			case 0:
 				variant = base + "?page=" + fmt.Sprint(10+i)
 			case 1:
